@@ -319,6 +319,10 @@ def theorem_modules(prop_id):
                 continue
             src = strip_lean_comments(open(os.path.join(d, f), encoding='utf-8').read())
             names = re.findall(r'^\s*theorem\s+(' + re.escape(prop_id) + r'_[A-Za-z0-9_\.\']*)', src, re.M)
+            # names are reported relative to the root namespace PyTRS (files open exactly one namespace at the top)
+            ns = re.search(r'^namespace\s+PyTRS(?:\.([A-Za-z0-9_\.]+))?\s*$', src, re.M)
+            if ns and ns.group(1):
+                names = [ns.group(1) + '.' + n for n in names]
             if names or (sub == 'Props' and f == f'{prop_id}.lean'):
                 out.append((f'PyTRS.{sub}.{f[:-5]}', names))
     return out
